@@ -121,7 +121,10 @@ def gen_history(rng, hid, maxlen=6):
             o["sort_key"] = rng.choice(SORT_KEYS)
             o["sort_pnames"] = rng.random() < 0.5
         ops.append(o)
-    return {"id": hid, "pcols": pcols, "ptypes": {"k": kkind, "j": jkind}, "ops": ops}
+    h = {"id": hid, "pcols": pcols, "ptypes": {"k": kkind, "j": jkind}, "ops": ops}
+    if rng.random() < 0.15:
+        h["user_open"] = True      # every call gets a plain user function as open_with: the ParquetFile then has no .fs
+    return h
 
 
 def kind_witnesses():
@@ -166,6 +169,13 @@ def prefix_witnesses():
             {"op": "write", "frame": fr([(1, "a"), (10, "a"), (1, "ab"), (11, "a")], 0), "offsets": [0, 2]},
             {"op": "overwrite", "frame": fr([(1, "a")], 4), "offsets": [0]}]},
     ]
+
+
+def user_open_witness():
+    h = design_witness()
+    h["id"] = 900031
+    h["user_open"] = True
+    return h
 
 
 def emptied_history(pcols, hid):
@@ -256,6 +266,11 @@ def sort_key_fn(name):
     return lambda rg: rg.num_rows
 
 
+def plain_open(path, mode="rb"):
+    """a user-supplied open_with that is not a method of a file system object"""
+    return open(path, mode)
+
+
 def observe(root):
     """what the property looks at, from a FRESH open."""
     from fastparquet import ParquetFile
@@ -309,26 +324,27 @@ def run_history(arg):
     try:
         from fastparquet import ParquetFile, write
         pcols = h["pcols"]
+        okw = {"open_with": plain_open} if h.get("user_open") else {}
         for o in h["ops"]:
             raised = None
             sel = None
             try:
                 if o["op"] == "write":
-                    write(root, to_df(o["frame"], pcols, h.get("ptypes")), file_scheme="hive", partition_on=list(pcols), row_group_offsets=list(o["offsets"]))
+                    write(root, to_df(o["frame"], pcols, h.get("ptypes")), file_scheme="hive", partition_on=list(pcols), row_group_offsets=list(o["offsets"]), **okw)
                 elif o["op"] == "append":
-                    write(root, to_df(o["frame"], pcols, h.get("ptypes")), file_scheme="hive", partition_on=list(pcols), row_group_offsets=list(o["offsets"]), append=True)
+                    write(root, to_df(o["frame"], pcols, h.get("ptypes")), file_scheme="hive", partition_on=list(pcols), row_group_offsets=list(o["offsets"]), append=True, **okw)
                 elif o["op"] == "overwrite":
                     write(root, to_df(o["frame"], pcols, h.get("ptypes")), file_scheme="hive", partition_on=list(pcols), row_group_offsets=list(o["offsets"]),
-                          append="overwrite")
+                          append="overwrite", **okw)
                 elif o["op"] == "remove":
-                    pf = ParquetFile(root)
+                    pf = ParquetFile(root, **okw)
                     n = len(pf.row_groups)
                     sel = list(range(n)) if o.get("all") else (sorted(set(i % n for i in o["sel_spec"])) if n else [])
-                    pf.remove_row_groups([pf.row_groups[i] for i in sel], sort_pnames=o["sort_pnames"])
+                    pf.remove_row_groups([pf.row_groups[i] for i in sel], sort_pnames=o["sort_pnames"], **okw)
                 elif o["op"] == "writergs":
-                    pf = ParquetFile(root)
+                    pf = ParquetFile(root, **okw)
                     pf.write_row_groups(to_df(o["frame"], pcols, h.get("ptypes")), list(o["offsets"]), sort_key=sort_key_fn(o["sort_key"]),
-                                        sort_pnames=o["sort_pnames"])
+                                        sort_pnames=o["sort_pnames"], **okw)
             except BaseException as e:           # noqa
                 raised = "%s: %s" % (type(e).__name__, str(e)[:160].replace("\n", " "))
             out["resolved"].append(sel)
@@ -408,7 +424,7 @@ def run(ctx):
                 "partition values are drawn per history from pools of which two hold prefix-related texts (k in 1/10/11/2/21, j in a/ab/abc/b) and every new frame "
                 "from the whole pool, one value only, or a random subset; plus the DESIGN witness history, 3 prefix-value and 5 value-kind witness histories and 2 "
                 "histories that empty the dataset and append again (finding fixed by 05c32a7)")
-    hs = [design_witness(), emptied_history(["k"], 900002), emptied_history([], 900003)] + prefix_witnesses() + kind_witnesses() + [gen_history(rng, i) for i in range(nh)]
+    hs = [design_witness(), emptied_history(["k"], 900002), emptied_history([], 900003)] + prefix_witnesses() + kind_witnesses() + [user_open_witness()] + [gen_history(rng, i) for i in range(nh)]
     cdir = os.path.join(C.VERIF, "corpus", "C09")
     if os.path.isdir(cdir):
         for i, f in enumerate(sorted(os.listdir(cdir))):
@@ -421,14 +437,14 @@ def run(ctx):
     # report it as a failing input - the dataset cannot be read back at all
     crashed = [(h, r) for h, r in zip(hs, results) if isinstance(r, dict) and "__crashed__" in r]
     for h, r in crashed[:5]:
-        pre = [{"id": h["id"] * 10 + n, "pcols": h["pcols"], "ptypes": h.get("ptypes"), "ops": h["ops"][:n]} for n in range(1, len(h["ops"]) + 1)]
+        pre = [{"id": h["id"] * 10 + n, "pcols": h["pcols"], "ptypes": h.get("ptypes"), "user_open": h.get("user_open"), "ops": h["ops"][:n]} for n in range(1, len(h["ops"]) + 1)]
         rr = C.pmap(run_history, [(x, ctx.scratch) for x in pre], nproc=4, job_timeout=30)
         bad = [x for x, y in zip(pre, rr) if isinstance(y, dict) and "__crashed__" in y]
         hh = bad[0] if bad else h
         o = hh["ops"][-1]
         ctx.fail({"component": "dataset-edit", "symptom": "process-crashed-or-hung", "op": o["op"], "partitioned": bool(h["pcols"]),
                   "emptied_before": False, "sort_pnames": bool(o.get("sort_pnames") or o["op"] == "overwrite")},
-                 {"history": {"id": h["id"], "pcols": h["pcols"], "ptypes": h.get("ptypes"), "ops": hh["ops"]}, "step": len(hh["ops"]) - 1, "observed": r["__crashed__"]},
+                 {"history": {"id": h["id"], "pcols": h["pcols"], "ptypes": h.get("ptypes"), "user_open": h.get("user_open"), "ops": hh["ops"]}, "step": len(hh["ops"]) - 1, "observed": r["__crashed__"]},
                  "running / observing this history kills or hangs the process: %s" % r["__crashed__"])
     if len(crashed) > 5:
         ctx.notes.append("%d histories crashed the worker process; 5 reported" % len(crashed))
@@ -455,6 +471,7 @@ def run(ctx):
             continue
         ctx.count("partition_columns", len(h["pcols"]))
         ctx.count("history_length", len(h["ops"]))
+        ctx.count("open_with", "user function" if h.get("user_open") else "default")
         ctx.count("partition_value_kinds", "/".join((h.get("ptypes") or DEFAULT_PTYPES)[c] for c in h["pcols"]) or "-")
         if not isinstance(mo, list) or len(mo) != len(h["ops"]):
             ctx.correspondence("edit_hist answers one record per step", {"history": h["id"]}, len(h["ops"]), mo)
@@ -467,7 +484,7 @@ def run(ctx):
             def sid(x):
                 return SCHEMA_ID if (x is not None and x == ref_schema) else 2
             short = {"history": h["id"], "step": si, "op": o["op"], "pcols": h["pcols"], "sort_pnames": o.get("sort_pnames"), "sort_key": o.get("sort_key")}
-            case = {"history": {"id": h["id"], "pcols": h["pcols"], "ptypes": h.get("ptypes"), "ops": h["ops"][:si + 1]}, "step": si}
+            case = {"history": {"id": h["id"], "pcols": h["pcols"], "ptypes": h.get("ptypes"), "user_open": h.get("user_open"), "ops": h["ops"][:si + 1]}, "step": si}
             ctx.case({"h": h["ops"][:si + 1], "p": h["pcols"]}, trivial=si == 0)
             ctx.count("op", o["op"] + ("/sort_pnames" if o.get("sort_pnames") else ""))
             ctx.count("row_groups_after", min(len(msum), 12))
